@@ -296,7 +296,7 @@ func NewProgram(l *Loaded, hf *HarnessFile, tier string) (*Program, error) {
 		if fn == nil {
 			return nil, fmt.Errorf("%s: replacement function %s not found in %s", hf.Path, r[1], hf.PkgPath)
 		}
-		if findFunc(l.Prog, r[0]) == nil {
+		if !strings.Contains(r[0], "[") && findFunc(l.Prog, r[0]) == nil {
 			return nil, fmt.Errorf("%s: replace target %s does not exist in the program (renamed or removed?)", hf.Path, r[0])
 		}
 		p.Replace[r[0]] = fn
